@@ -53,6 +53,74 @@ def lit(s):
     return '"' + s.replace("\\", "\\\\").replace('"', '\\"') + '"'
 
 
+PROTO_FUNCS = ["submit_call", "get_result", "get_next_result", "terminate", "serve", "run"]
+STATE_NAMES = ("total_time_est", "queue", "slave_queue", "assigned", "results", "available")
+KEEP_CALLS = ("comm.send", "comm.recv", "comm.Abort", "queue.append", "queue.remove",
+              "assigned.pop", "get_result", "serve", "terminate", "abort", "object_to_call",
+              "numpy.argmin")
+
+
+def protocol_statements(func):
+    """the statements of `func` that make up the protocol (communication, the master's
+    bookkeeping, slave choice, control flow), in source order, each prefixed by the
+    enclosing conditions (print / timing / statistics statements are dropped)."""
+    out = []
+
+    def relevant(node):
+        if isinstance(node, (ast.Raise, ast.Break)):
+            return True
+        if isinstance(node, ast.Return):
+            return True
+        txt = ast.unparse(node)
+        if isinstance(node, (ast.Assign, ast.AugAssign)):
+            tgt = ast.unparse(node.targets[0] if isinstance(node, ast.Assign) else node.target)
+            base = tgt.split("[")[0]
+            if base in STATE_NAMES or base in ("slave", "source", "id", "result") \
+                    or tgt.startswith("n_processed[source]") or tgt.startswith("(result"):
+                return True
+            if tgt.startswith("(name_to_call"):
+                return True
+        for c in ast.walk(node):
+            if isinstance(c, ast.Call):
+                fn = ast.unparse(c.func)
+                if fn in KEEP_CALLS or fn.endswith(".append") and fn.split(".")[0].split("[")[0] in STATE_NAMES \
+                        or fn.endswith(".remove") and fn.split("[")[0] in STATE_NAMES \
+                        or fn.startswith('_globals['):
+                    return True
+        return False
+
+    def short(node):
+        if isinstance(node, ast.Raise):
+            exc = node.exc
+            if exc is None:
+                return "raise"
+            return "raise " + (ast.unparse(exc.func) if isinstance(exc, ast.Call) else ast.unparse(exc))
+        return " ".join(ast.unparse(node).split())
+
+    def walk(stmts, conds):
+        for st in stmts:
+            if isinstance(st, ast.If):
+                t = " ".join(ast.unparse(st.test).split())
+                if t in ("_verbose", "verbose"):
+                    continue
+                walk(st.body, conds + [t])
+                walk(st.orelse, conds + ["not (" + t + ")"])
+            elif isinstance(st, (ast.While, ast.For)):
+                head = ("while " + ast.unparse(st.test)) if isinstance(st, ast.While) else \
+                    ("for " + ast.unparse(st.target) + " in " + ast.unparse(st.iter))
+                walk(st.body, conds + [head])
+            elif isinstance(st, ast.Try):
+                walk(st.body, conds)
+                for hnd in st.handlers:
+                    walk(hnd.body, conds + ["except " + (ast.unparse(hnd.type) if hnd.type else "")])
+            elif isinstance(st, ast.Expr) and isinstance(st.value, ast.Constant):
+                continue
+            elif relevant(st):
+                out.append(("[" + " & ".join(conds) + "] " if conds else "") + short(st))
+    walk(func.body, [])
+    return out
+
+
 def main():
     src = open(os.path.join(REPO, "src/pyunicorn/core/network.py")).read()
     tree = ast.parse(src)
@@ -82,6 +150,60 @@ def main():
         out.append(f"def {short}_n_submit_sites : Nat := {len(subs)}")
         out.append(f"def {short}_assembly : String := {lit(asm)}")
         out.append("")
+    # ---- multiprocessing split of `targets` in Network._nsi_betweenness ----------------
+    f = [n for n in cls.body if isinstance(n, ast.FunctionDef) and n.name == "_nsi_betweenness"][0]
+    split_call, map_call, reduce_call, serial_call, pool_ctor = "<none>", "<none>", "<none>", "<none>", "<none>"
+    pool_conds = []
+    for conds, c in enclosing_ifs(f, lambda c: ast.unparse(c.func) == "np.array_split"):
+        split_call, pool_conds = ast.unparse(c), conds
+    for conds, c in enclosing_ifs(f, lambda c: ast.unparse(c.func) == "pool.map"):
+        map_call = ast.unparse(c)
+    for n in ast.walk(f):
+        if isinstance(n, ast.Assign) and ast.unparse(n.targets[0]) == "betw_w":
+            v = n.value
+            if isinstance(v, ast.Call) and ast.unparse(v.func) == "np.sum":
+                reduce_call = "np.sum(<map>, " + ", ".join(
+                    f"{k.arg}={ast.unparse(k.value)}" for k in v.keywords) + ")"
+            elif isinstance(v, ast.Call) and ast.unparse(v.func) == "worker":
+                serial_call = ast.unparse(v)
+            else:
+                reduce_call = ast.unparse(v)
+        if isinstance(n, ast.Assign) and ast.unparse(n.targets[0]) == "batches":
+            split_call = ast.unparse(n.value)
+        if isinstance(n, ast.Assign) and ast.unparse(n.targets[0]) == "worker":
+            pool_ctor = ast.unparse(n.value)
+    out.append(f"def pool_split : String := {lit(split_call)}")
+    out.append(f"def pool_map : String := {lit(map_call)}")
+    out.append(f"def pool_reduce : String := {lit(reduce_call)}")
+    out.append(f"def pool_serial : String := {lit(serial_call)}")
+    out.append(f"def pool_worker : String := {lit(pool_ctor)}")
+    out.append(f"def pool_conditions : List String := [{', '.join(lit(c) for c in pool_conds)}]")
+    out.append("")
+    # ---- protocol statements of utils/mpi.py ----------------------------------------------
+    msrc = open(os.path.join(REPO, "src/pyunicorn/utils/mpi.py")).read()
+    mtree = ast.parse(msrc)
+    funcs = {}
+    for n in ast.walk(mtree):
+        if isinstance(n, ast.FunctionDef) and n.name in PROTO_FUNCS and n.name not in funcs:
+            funcs[n.name] = n
+    for name in PROTO_FUNCS:
+        stmts = protocol_statements(funcs[name]) if name in funcs else ["<missing>"]
+        out.append(f"def mpi_{name} : List String := [")
+        out.append(",\n".join("  " + lit(x) for x in stmts))
+        out.append("]")
+        out.append("")
+    # module-level initialisation of the master's tables
+    inits = []
+    for n in ast.walk(mtree):
+        if isinstance(n, ast.Assign) and isinstance(n.targets[0], (ast.Name, ast.Subscript)):
+            tgt = ast.unparse(n.targets[0])
+            if tgt.split("[")[0] in ("total_time_est", "queue", "assigned", "slave_queue", "am_master",
+                                     "n_slaves", "size", "rank") and n.col_offset <= 4:
+                inits.append(" ".join(ast.unparse(n).split()))
+    out.append("def mpi_init : List String := [")
+    out.append(",\n".join("  " + lit(x) for x in inits))
+    out.append("]")
+    out.append("")
     out.append("end Pyunicorn.Generated.StructC19")
     txt = "\n".join(out) + "\n"
     if not os.path.exists(OUT) or open(OUT).read() != txt:
